@@ -64,7 +64,7 @@ type LIface struct {
 	// twice, which no Go file can hold - the run has to be refused (or every function emitted exactly once)
 	EmbedIsConverter bool      `json:"embed_is_converter,omitempty"`
 	Embed            string    `json:"embed,omitempty"`
-	EmbedMethods []LMethod `json:"embed_methods,omitempty"`
+	EmbedMethods     []LMethod `json:"embed_methods,omitempty"`
 }
 
 // LItem is one top-level item.
@@ -80,15 +80,15 @@ type LFile struct {
 	// Header: ordinary comment lines directly above the build constraint, in the same comment group
 	Header []string `json:"header,omitempty"`
 	// GoGenerateAtPackage: a go:generate line directly above the package clause (it is the package doc)
-	GoGenerateAtPackage bool     `json:"go_generate_at_package,omitempty"`
-	Tagged              bool     `json:"tagged"`
-	OldTag              bool     `json:"old_tag,omitempty"`
+	GoGenerateAtPackage bool `json:"go_generate_at_package,omitempty"`
+	Tagged              bool `json:"tagged"`
+	OldTag              bool `json:"old_tag,omitempty"`
 	// TagMore: a further term of the constraint after "convergen" ("go1.18", "!never"): //go:build convergen && go1.18,
 	// // +build convergen,go1.18. The whole constraint line goes (the output belongs to the ordinary build).
-	TagMore string `json:"tag_more,omitempty"`
-	PkgDoc              []string `json:"pkg_doc,omitempty"`
-	Imports             []Import `json:"imports,omitempty"`
-	Items               []LItem  `json:"items"`
+	TagMore string   `json:"tag_more,omitempty"`
+	PkgDoc  []string `json:"pkg_doc,omitempty"`
+	Imports []Import `json:"imports,omitempty"`
+	Items   []LItem  `json:"items"`
 }
 
 func renderIface(sb *strings.Builder, it *LIface, skeleton bool) {
